@@ -87,6 +87,12 @@ def gen_script(rng, cfg, hb=0.004, focus=None):
             # the caller gives up while the reply is outstanding
             script += gap(rng, hb) + [('cancel', u)]
         logged_in = reply[:1] == [('msg', 0)] or reply[:2] == ['hb', ('msg', 0)]
+    if logged_in and not stream_dead[0] and rng.random() < (0.25 if focus in ('close', None) else 0.05):
+        # a heartbeat-timeout close with inbound data / user calls landing in the middle of it
+        script.append(('at_trip',))
+        script.append(('turns', rng.randint(0, 7)))
+        for it in cut_stream(frames(rng.randint(1, 2), allow_special=False) if rng.random() < 0.7 else ['hb'], codec, rng, 'whole'):
+            script.append(it)
     n_ops = rng.randint(1, 7)
     closes = 0
     for _ in range(n_ops):
